@@ -30,3 +30,15 @@ def chol2_limit_singular(mat, qp, x, s, z, kkt_in_use):
     n = mat["n"]
     sv = np.linalg.svd(S, compute_uv=False)
     return bool(len(sv) < n or sv[-1] <= 1e-8 * max(1.0, sv[0]))
+
+
+def coneqp_gap_cycling(sol, maxiters=100):
+    """Known finding 'coneqp-gap-cycling': on some well-posed QPs coneqp's iteration (sigma from the affine step,
+    eta = 0, no safeguard) enters a cycle: the iterates are feasible to working accuracy while the gap oscillates, until
+    the iteration limit.  Identified by: status 'unknown' with iterations == maxiters and reported primal and dual
+    infeasibility <= 1e-8."""
+    try:
+        return (sol["status"] == "unknown" and sol.get("iterations") == maxiters
+                and float(sol["primal infeasibility"]) <= 1e-8 and float(sol["dual infeasibility"]) <= 1e-8)
+    except (KeyError, TypeError, ValueError):
+        return False
